@@ -131,8 +131,10 @@ def _publish(ck, p):
         cfg = Cfg(f)
         pv = Prov(f)
         sends = [(bi, t) for bi, t in f.calls() if inst_of(t).endswith("client::{impl}::send_notification") and awaited(f, bi)]
-        ok = bool(sends)
-        detail = "send_notification sites=%d" % len(sends)
+        # an awaited async helper (new since the reference tree) that sends the empty list for the url it is given
+        hsends = _helper_empty_sends(p, f)
+        ok = bool(sends) or bool(hsends)
+        detail = "send_notification sites=%d%s" % (len(sends), "" if not hsends else ", through an awaited helper: %d" % len(hsends))
         for sb, st in sends:
             params = [o for o in flatten(pv.trace_operand(st["args"][1])) if False]
             agg = _params_agg(f, pv, st["args"][1])
@@ -146,11 +148,11 @@ def _publish(ck, p):
             detail += "; diagnostics = empty Vec: %s" % empty
         if name == "did_close":
             rem = [(bi, t) for bi, t in f.calls() if method(t) in ("remove", "retain") and "doc_state" in _lock_chain(f, pv, t["args"][0])]
-            before = bool(rem) and all(any(cfg.dominates(rb, sb) for rb, _ in rem) for sb, _ in sends)
+            before = bool(rem) and all(any(cfg.dominates(rb, sb) for rb, _ in rem) for sb, _ in sends + [(hb, ht) for hb, ht, _ in hsends])
             ok = ok and before
             detail += "; state removed before the empty publish: %s" % before
         if name == "did_change_watched_files":
-            good, why = _watched_files(p, f, cfg, pv, sends)
+            good, why = _watched_files(p, f, cfg, pv, sends, hsends)
             ok = ok and good
             detail += "; " + why
         n += 1
@@ -183,7 +185,35 @@ def _publish(ck, p):
                 always, "" if always else " - blocks %s return without publishing: the client keeps whatever it was last sent (for a re-opened document: the empty list did_close published)" % wit))
 
 
-def _watched_files(p, f, cfg, pv, sends):
+def _helper_empty_sends(p, f):
+    """[(block, call, url operand)]: awaited calls in f to an async helper that did not exist on the reference tree and whose
+    body sends PublishDiagnostics with an empty list for its url parameter"""
+    from .. import inline
+    known = inline.load_known() or set()
+    out = []
+    for bi, t in f.calls():
+        inst = inst_of(t)
+        body = p.fns.get((t["f"].get("inst") or "") + "::{closure#0}")
+        if body is None or norm(inst) in known or not inst.startswith("harper_ls::") or not awaited(f, bi):
+            continue
+        bpv = Prov(body)
+        for sb, st in body.calls():
+            if not (inst_of(st).endswith("client::{impl}::send_notification") and awaited(body, sb)):
+                continue
+            agg = _params_agg(body, bpv, st["args"][1])
+            if agg is None:
+                continue
+            fields = dict(zip(agg["fields"], agg["ops"]))
+            empty = all(o[0] == "call" and last(norm(o[3] or "")) in ("new", "from_elem") or o[0] == "const" for o in flatten(bpv.trace_operand(fields["diagnostics"])))
+            uri_roots = arg_roots(body, bpv, fields["uri"])
+            names = field_names(bpv.trace_operand(fields["uri"])) | {x for o in uri_roots for x in ([] if o[0] != "field" else [o[3]])}
+            from_url = "url" in arg_fields(bpv, fields["uri"]) or "url" in names or any("url" in str(o) for o in uri_roots)
+            if empty and from_url and len(t["args"]) >= 2:
+                out.append((bi, t, t["args"][1]))
+    return out
+
+
+def _watched_files(p, f, cfg, pv, sends, hsends=()):
     """the urls that get an empty publish are exactly those the retain closure removed: the closure
     pushes its key into a vector under the very flag whose negation it returns, and the publish loop
     iterates that vector"""
@@ -224,11 +254,14 @@ def _watched_files(p, f, cfg, pv, sends):
                     if pl and pl[0] in pv.mut_base:
                         vec_local = pv.mut_base[pl[0]]
     iter_same = False
+    uris = []
     for sb, st in sends:
         agg = _params_agg(f, pv, st["args"][1])
         if agg is None:
             continue
-        uri = dict(zip(agg["fields"], agg["ops"]))["uri"]
+        uris.append(dict(zip(agg["fields"], agg["ops"]))["uri"])
+    uris += [u for _, _, u in hsends]
+    for uri in uris:
         roots = arg_roots(f, pv, uri)
         from_next = any(o[0] == "call" and method(f.blocks[o[1]]["t"]) == "next" for o in roots)
         for o in roots:
@@ -331,6 +364,8 @@ def _only_when_not_open(f, call_bb):
         for v, x in t["targets"]:
             if v == "0":
                 none_blk = x
+        if none_blk is None and [v for v, _ in t["targets"]] == ["1"]:
+            none_blk = t.get("otherwise")      # `if let Some(..) = opt { .. } else { .. }`: everything but Some
         if none_blk is None or not cfg.dominates(none_blk, call_bb) or len(cfg.pred[none_blk]) != 1:
             continue
         org = pv.trace_operand(t["discr"])
